@@ -372,7 +372,7 @@ REL_SWAP = {"Lt": "Gt", "Le": "Ge", "Gt": "Lt", "Ge": "Le", "Eq": "Eq", "Ne": "N
 CMP_METHODS = {"lt": "Lt", "le": "Le", "gt": "Gt", "ge": "Ge", "eq": "Eq", "ne": "Ne"}
 
 
-def compare_sites(body):
+def compare_sites(body, lex=False):
     """All comparison computations in the body: (block, kind, op, lhs_local, rhs_local, dest_local, line).
     Primitive comparisons are `bin` statements; others are PartialEq/PartialOrd method calls."""
     prep(body)
@@ -389,9 +389,52 @@ def compare_sites(body):
             g = t["ngen"] or ""
             m = re.search(r"core::cmp::Partial(?:Eq|Ord)::(lt|le|gt|ge|eq|ne)$", g)
             if m:
-                out.append({"bb": b["id"], "op": CMP_METHODS[m.group(1)], "a": t["args"][0], "b": t["args"][1],
-                            "d": t["d"][0], "line": t["l"], "callee": t["ncallee"]})
+                site = {"bb": b["id"], "op": CMP_METHODS[m.group(1)], "a": t["args"][0], "b": t["args"][1],
+                        "d": t["d"][0], "line": t["l"], "callee": t["ncallee"]}
+                out.append(site)
+                # a lexicographic comparison of two tuples built in this body also says something about their first components:
+                # (a0, ..) >= (b0, ..) ⇒ a0 >= b0, and its negation ⇒ a0 <= b0 (never the strict form)
+                if lex and "core::tuple::<impl core::cmp::PartialOrd for (" in (t["ncallee"] or "") and m.group(1) in ("lt", "le", "gt", "ge"):
+                    a0, b0 = _tuple_first(body, op_local(t["args"][0])), _tuple_first(body, op_local(t["args"][1]))
+                    if a0 is not None and b0 is not None:
+                        weak = {"lt": ("Le", "Ge"), "le": ("Le", "Ge"), "gt": ("Ge", "Le"), "ge": ("Ge", "Le")}[m.group(1)]
+                        out.append({"bb": b["id"], "op": weak[0], "a": a0, "b": b0, "d": t["d"][0], "line": t["l"], "callee": t["ncallee"],
+                                    "lex": {"true": weak[0], "false": weak[1]}})
     return out
+
+
+def _tuple_first(body, local, depth=6):
+    """the operand stored as component 0 of the tuple `local` (followed back through references and plain copies) holds"""
+    while local is not None and depth > 0:
+        depth -= 1
+        defs = []
+        for b in body.blocks:
+            if b["cleanup"]:
+                continue
+            for s in b["stmts"]:
+                if s["d"] == [local]:
+                    defs.append(s["rv"])
+            t = b["term"]
+            if t["k"] == "call" and t.get("d") == [local]:
+                return None
+        if len(defs) != 1:
+            return None
+        rv = defs[0]
+        if rv["k"] == "agg" and rv.get("ak") == "tuple" and rv["ops"]:
+            return rv["ops"][0]
+        if rv["k"] == "ref":
+            p = [e for e in rv["p"][1:] if e != "*"]
+            if p:
+                return None
+            local = rv["p"][0]
+        elif rv["k"] == "use" and rv["a"][0] in ("cp", "mv"):
+            p = [e for e in rv["a"][1][1:] if e != "*"]
+            if p:
+                return None
+            local = rv["a"][1][0]
+        else:
+            return None
+    return None
 
 
 def arith_result(body, local, depth=4):
@@ -449,7 +492,9 @@ class CmpGuard:
         n = 0
         self.found = []
         self.seeds = set()
-        for c in compare_sites(body):
+        for c in compare_sites(body, lex=True):
+            if not c.get("lex") and "core::tuple::<impl core::cmp::Partial" in (c.get("callee") or ""):
+                continue        # a comparison of whole tuples says nothing about a component other than the first (see the `lex` site)
             la, lb = op_local(c["a"]), op_local(c["b"])
             rel = None
             if la in A and lb in B and not (la in B and lb in A and la == lb):
@@ -463,6 +508,16 @@ class CmpGuard:
                 continue
             n += 1
             self.found.append((c["line"], rel))
+            if c.get("lex"):
+                # first components of a lexicographic tuple comparison: each edge only yields the weak relation
+                swap = la in B and lb in A and not (la in A and lb in B)
+                r_true = REL_SWAP[c["lex"]["true"]] if swap else c["lex"]["true"]
+                r_false = REL_SWAP[c["lex"]["false"]] if swap else c["lex"]["false"]
+                if r_true in self.required:
+                    tr.seed_bool(c["d"], True)
+                elif r_false in self.required:
+                    tr.seed_bool(c["d"], False)
+                continue
             if rel in self.required:
                 tr.seed_bool(c["d"], True)
                 self.seeds.add((c["bb"], c["d"], True))
